@@ -463,7 +463,7 @@ Proof.
 Qed.
 
 Lemma from_ordinal_ok src nic st rst ci :
-  from_ordinal src nic st rst = Ok ci ->
+  from_ordinal_params src nic st rst = Ok ci ->
   let bs := fo_ballots nic st rst (os_multiplicity src) in
   let items := combine bs (map snd (os_multiplicity src)) in
   exists k,
@@ -479,7 +479,7 @@ Lemma from_ordinal_ok src nic st rst ci :
     ci_num_alternatives ci = os_num_alternatives src /\
     ci_alternatives_name ci = os_alternatives_name src.
 Proof.
-  intros H bs items. unfold from_ordinal in H.
+  intros H bs items. unfold from_ordinal_params in H.
   destruct (count_none nic st rst <? 2)%nat eqn:G1; [discriminate|].
   destruct (count_none nic st rst =? 3)%nat eqn:G2; [discriminate|].
   destruct (max_len (fo_raw nic st rst (os_multiplicity src))) as [k|e] eqn:Hk; [|discriminate].
@@ -500,7 +500,7 @@ Proof.
 Qed.
 
 Lemma fo_conserve_lemma src nic st rst ci :
-  from_ordinal src nic st rst = Ok ci ->
+  from_ordinal_params src nic st rst = Ok ci ->
   let bs := fo_ballots nic st rst (os_multiplicity src) in
   let items := combine bs (map snd (os_multiplicity src)) in
   length bs = length (os_multiplicity src) /\
@@ -733,7 +733,7 @@ Lemma max_len_ok raw k : max_len raw = Ok k -> raw <> [] /\ k = fold_right N.max
 Proof. unfold max_len. destruct raw; intros H; inversion H. split; [discriminate | reflexivity]. Qed.
 
 Lemma fo_padding_lemma src nic st rst ci :
-  from_ordinal src nic st rst = Ok ci ->
+  from_ordinal_params src nic st rst = Ok ci ->
   let raw := fo_raw nic st rst (os_multiplicity src) in
   let bs := fo_ballots nic st rst (os_multiplicity src) in
   let k := ci_num_categories ci in
@@ -776,7 +776,7 @@ Proof.
 Qed.
 
 Lemma fo_ballots_eq src nic st rst ci :
-  from_ordinal src nic st rst = Ok ci ->
+  from_ordinal_params src nic st rst = Ok ci ->
   fo_ballots nic st rst (os_multiplicity src) =
   map (fun om => pad (ci_num_categories ci) (raw_pref nic st rst (fst om))) (os_multiplicity src).
 Proof.
@@ -786,7 +786,7 @@ Proof.
 Qed.
 
 Lemma fo_partition_lemma src nic st rst ci :
-  from_ordinal src nic st rst = Ok ci ->
+  from_ordinal_params src nic st rst = Ok ci ->
   truthy nic || truthy st || truthy rst = true ->
   let bs := fo_ballots nic st rst (os_multiplicity src) in
   length bs = length (os_multiplicity src) /\
@@ -805,7 +805,7 @@ Proof.
 Qed.
 
 Lemma fo_rules_lemma src nic st rst ci :
-  from_ordinal src nic st rst = Ok ci ->
+  from_ordinal_params src nic st rst = Ok ci ->
   let k := ci_num_categories ci in
   Forall2 (fun om b => exists r, b = r ++ repeat [] (N.to_nat k - length r) /\
              match nic, st, rst with
@@ -828,25 +828,25 @@ Qed.
 
 (* ---- guards ---- *)
 Lemma fo_guard_too_many src nic st rst :
-  (count_none nic st rst < 2)%nat -> from_ordinal src nic st rst = Err ValueErr.
-Proof. intros H. unfold from_ordinal. apply Nat.ltb_lt in H. rewrite H. reflexivity. Qed.
+  (count_none nic st rst < 2)%nat -> from_ordinal_params src nic st rst = Err ValueErr.
+Proof. intros H. unfold from_ordinal_params. apply Nat.ltb_lt in H. rewrite H. reflexivity. Qed.
 
-Lemma fo_guard_none src : from_ordinal src None None None = Err ValueErr.
+Lemma fo_guard_none src : from_ordinal_params src None None None = Err ValueErr.
 Proof. reflexivity. Qed.
 
 Lemma fo_empty_source src nic st rst :
-  os_multiplicity src = [] -> from_ordinal src nic st rst = Err ValueErr.
+  os_multiplicity src = [] -> from_ordinal_params src nic st rst = Err ValueErr.
 Proof.
-  intros H. unfold from_ordinal. rewrite H. simpl.
+  intros H. unfold from_ordinal_params. rewrite H. simpl.
   destruct (count_none nic st rst <? 2)%nat; [reflexivity|].
   destruct (count_none nic st rst =? 3)%nat; reflexivity.
 Qed.
 
 Lemma fo_total src nic st rst :
   count_none nic st rst = 2%nat -> os_multiplicity src <> [] ->
-  exists ci, from_ordinal src nic st rst = Ok ci.
+  exists ci, from_ordinal_params src nic st rst = Ok ci.
 Proof.
-  intros Hc Hs. unfold from_ordinal. rewrite Hc. simpl.
+  intros Hc Hs. unfold from_ordinal_params. rewrite Hc. simpl.
   unfold fo_raw. destruct (os_multiplicity src) as [|[o m] l]; [congruence|]. simpl.
   destruct (order_pref nic rst st o) as [p st']. simpl.
   match goal with |- context [acc_loop ?a ?b ?c] => destruct (acc_loop a b c) end.
@@ -918,7 +918,7 @@ Qed.
 Lemma fo_partition_empty_truncators_refuted :
   exists src ci,
     os_multiplicity src = [([[1]; [2]], 3)] /\
-    from_ordinal src None (Some []) None = Ok ci /\
+    from_ordinal_params src None (Some []) None = Ok ci /\
     ci_preferences ci = [[]] /\ ci_num_categories ci = 0 /\
     ~ Partition [[1]; [2]] [].
 Proof.
@@ -949,7 +949,7 @@ Proof. intros H F. induction F; constructor; auto. Qed.
 Definition padded_to (k : N) (r b : ballot) : Prop := b = r ++ repeat [] (N.to_nat k - length r).
 
 Lemma fo_size_rule_lemma src ts ci :
-  ts <> [] -> from_ordinal src None (Some ts) None = Ok ci ->
+  ts <> [] -> from_ordinal_params src None (Some ts) None = Ok ci ->
   Forall2 (fun om b => exists r, size_rule ts (fst om) r /\ padded_to (ci_num_categories ci) r b)
           (os_multiplicity src) (fo_ballots None (Some ts) None (os_multiplicity src)).
 Proof.
@@ -958,7 +958,7 @@ Proof.
 Qed.
 
 Lemma fo_relative_rule_lemma src tabs ci :
-  tabs <> [] -> from_ordinal src None None (Some tabs) = Ok ci ->
+  tabs <> [] -> from_ordinal_params src None None (Some tabs) = Ok ci ->
   Forall2 (fun om b => exists r, size_rule (rel_sizes tabs (fst om)) (fst om) r /\
                                  padded_to (ci_num_categories ci) r b)
           (os_multiplicity src) (fo_ballots None None (Some tabs) (os_multiplicity src)).
@@ -968,7 +968,7 @@ Proof.
 Qed.
 
 Lemma fo_classes_rule_lemma src ns ci :
-  ns <> [] -> from_ordinal src (Some ns) None None = Ok ci ->
+  ns <> [] -> from_ordinal_params src (Some ns) None None = Ok ci ->
   Forall2 (fun om b => exists r, classes_rule ns (fst om) r /\ padded_to (ci_num_categories ci) r b)
           (os_multiplicity src) (fo_ballots (Some ns) None None (os_multiplicity src)).
 Proof.
@@ -1148,7 +1148,7 @@ Qed.
 
 (* the result of from_ordinal is a valid conversion (consequence of partition, padding, conservation) *)
 Lemma fo_output_valid_lemma src nic st rst ci :
-  from_ordinal src nic st rst = Ok ci ->
+  from_ordinal_params src nic st rst = Ok ci ->
   truthy nic || truthy st || truthy rst = true ->
   ValidConversion (os_multiplicity src) (ci_preferences ci) (ci_multiplicity ci) (ci_num_categories ci).
 Proof.
@@ -1261,7 +1261,7 @@ Definition positive_params (nic st : option (list N)) (rst : option (list (list 
   Forall (fun om => Forall (fun t => 0 < t) (rel_sizes (olist rst) (fst om))) src.
 
 Lemma fo_trailing_lemma src nic st rst ci :
-  from_ordinal src nic st rst = Ok ci ->
+  from_ordinal_params src nic st rst = Ok ci ->
   truthy nic || truthy st || truthy rst = true ->
   positive_params nic st rst (os_multiplicity src) ->
   Forall (fun om => Forall (fun c => c <> []) (fst om)) (os_multiplicity src) ->
